@@ -190,7 +190,12 @@ func mergeOut(res *runResult, o *WorkerOut) {
 			a.Digests = map[string]string{}
 		}
 		if old, ok := a.Digests[k]; ok && old != v {
-			sig := "nondeterministic-across-processes:" + strings.SplitN(k, "/", 2)[0]
+			parts := strings.SplitN(k, "/", 3)
+			kindName := parts[0]
+			if len(parts) == 3 {
+				kindName = parts[1]
+			}
+			sig := "nondeterministic-across-processes:" + kindName
 			a.Violated++
 			a.ViolBySig[sig]++
 			if a.ViolBySig[sig] <= 2 {
@@ -607,6 +612,9 @@ func raceWorkerMain(args []string) int {
 	outs := make([]*Worker, G)
 	var wg sync.WaitGroup
 	capt := startFdCapture(filepath.Dir(outPath), "race")
+	if p.Setup != nil {
+		p.Setup(&Worker{P: p, Tier: "race", Seed: seed})
+	}
 	for g := 0; g < G; g++ {
 		w := &Worker{P: p, Tier: "race", Seed: seed, out: newWorkerOut(0, n), shapes: map[uint64]struct{}{}, seenCel: map[string]int{}, Cap: capt}
 		outs[g] = w
